@@ -21,6 +21,8 @@ package main
 //@   ensures#nilxor err == nil ==> id != nil                                                                        [C14 C18]
 
 //@ func parseIdentities(f) (ids, err)
+//@   call bufio.NewScanner#1 requires id(arg0) == id(lr) && same(lr.R, f) && lr.N == 16777216                     [C18]
+//@   ensures#toolong err == nil ==> lr.N > 0                                                                     [C18]
 //@   ensures#scanerr err == nil ==> calls("Err",1) == old(calls("Err",1)) + 1 && lasterr("Err",1) == nil                          [C13 C18]
 //@   requires f != nil
 //@   loop 1 invariant scanner != nil && n == scanner.$ln && n >= 0
@@ -33,6 +35,8 @@ package main
 //@   ensures#nil err != nil ==> ids == nil                                                                         [C14 C18]
 
 //@ func parseRecipientsFile(name) (recs, err)
+//@   call bufio.NewScanner#1 requires id(arg0) == id(lr) && id(lr.R) == id(f)  && lr.N == 16777216                     [C18]
+//@   ensures#toolong err == nil ==> lr.N > 0                                                                     [C18]
 //@   ensures#scanerr err == nil ==> calls("Err",1) == old(calls("Err",1)) + 1 && lasterr("Err",1) == nil                          [C13 C18]
 //@   modifies $warnings, stdinInUse
 //@   loop 1 invariant scanner != nil && n == scanner.$ln && n >= 0
